@@ -53,6 +53,7 @@ class Run:
         self.skipped = {}
         self._known = [k for k in self._load_known() if k.get('property') == pid and k.get('status', 'open') == 'open']
         self._nrep = 0
+        self.vclasses = {}
 
     @staticmethod
     def _load_known():
@@ -97,7 +98,9 @@ class Run:
                     self.known_hits[kid] = {'count': 0, 'what': k['what'], 'first': {'key': key, 'message': message}}
                 self.known_hits[kid]['count'] += 1
                 return False
-        if len(self.violations) < 25:
+        kk = json.dumps(key, sort_keys=True, default=_jsonable)
+        self.vclasses[kk] = self.vclasses.get(kk, 0) + 1
+        if len(self.violations) < 25 or self.vclasses[kk] == 1:
             os.makedirs(REPLAY, exist_ok=True)
             self._nrep += 1
             path = os.path.join(REPLAY, '%s-%03d.json' % (self.pid, self._nrep))
@@ -119,7 +122,7 @@ class Run:
             'samples': self.samples if self.samples else ['(no sample recorded)'],
             'evaluations': int(self.evaluations), 'distinct_nontrivial': int(dn), 'rule': self.rule,
             'exhaustive': bool(self.exhaustive), 'tlc_runs': self.tlc_runs, 'max_deviation': self.max_dev,
-            'skipped': self.skipped, 'known_findings_observed': {k: v['count'] for k, v in self.known_hits.items()},
+            'skipped': self.skipped, 'violation_classes': self.vclasses, 'known_findings_observed': {k: v['count'] for k, v in self.known_hits.items()},
         }
         cov.update(self.notes)
         ev = {'property_id': self.pid, 'tier': self.tier, 'seed': int(self.seed), 'level': 'model_checking', 'coverage': cov,
@@ -130,6 +133,8 @@ class Run:
         for kid, v in self.known_hits.items():
             print('KNOWN-FINDING: property=%s %s (observed %d times, e.g. %s)' % (self.pid, v['what'], v['count'],
                                                                                   json.dumps(v['first']['key'], default=_jsonable)))
+        for kk, n in sorted(self.vclasses.items(), key=lambda kv: -kv[1])[:40]:
+            print('   violation class x%d: %s' % (n, kk))
         for key, msg, path in self.violations[:25]:
             print('VIOLATION property=%s replay=%s' % (self.pid, path))
             print('   ' + msg[:600])
